@@ -19,7 +19,8 @@ Init == l = 1 /\ kinds = <<>> /\ bags = <<>> /\ viol = {}
 
 \* contents of every queue object as logged vs. abstract bags B; op queue = oq
 ContentViol(t, B, oq) ==
-  IF Len(t.qs) # Len(B) THEN {<<l, "QueueCount">>}
+  IF t.quiet = 1 THEN {}     \* the harness did not look at the queues after this call (every second history: only at the end)
+  ELSE IF Len(t.qs) # Len(B) THEN {<<l, "QueueCount">>}
   ELSE UNION {IF SetOf(t.qs[q]) = B[q] /\ Len(t.qs[q]) = Cardinality(B[q]) THEN {}
               ELSE {<<l, IF q = oq THEN "Contents" ELSE "Isolation">>} : q \in 1..Len(B)}
 
